@@ -244,6 +244,16 @@ let () =
                report lineno true "genesis go-refuses-registry-smaller-than-SLOTS_PER_EPOCH (documented API limit; the Spec builds a state)"
            | _ -> judge lineno res post "genesis");
           (match res with
+           | ROk (_, _, mroot) ->
+               List.iter (fun t ->
+                   if String.length t > 5 && String.sub t 0 5 = "root=" then begin
+                     let g = String.lowercase_ascii (String.sub t 5 (String.length t - 5)) in
+                     let g = if String.length g > 2 && String.sub g 0 2 = "0x" then String.sub g 2 (String.length g - 2) else g in
+                     let mr = hex_of_string (string_of_bytes mroot) in
+                     report lineno (mr = g) ("genesis-root " ^ (if mr = g then "" else "spec=" ^ mr ^ " go=" ^ g))
+                   end) _gtags
+           | _ -> ());
+          (match res with
            | ROk _ when valid <> "-" ->
                report lineno ((valid = "1") = v) (Printf.sprintf "genesis-validity spec=%b go=%s" v valid)
            | _ -> ())
